@@ -70,6 +70,8 @@ func checkC09(P *core.Program, R *core.Report) {
 			"x/perpetual/keeper.Keeper.HandleOpenEstimation": "open estimation works on a hypothetical position and pool copy, nothing is stored",
 			"x/perpetual/keeper.Keeper.fillMTPData":          "query decoration of a loaded MTP: funding and interest are previewed on copies for display, nothing is stored (C09-*-scratch checks it cannot reach SetMTP/SetPool)",
 		}})
+	checkModifiedPersistedX(P, R, modPersistSpec{Rule: "C09-mtp-persisted", TypePkg: "x/perpetual/types", TypeName: "MTP",
+		Store: "x/perpetual/keeper.Keeper.SetMTP", Alt: []string{"x/perpetual/keeper.Keeper.DestroyMTP"}, Subjects: subjects, Scratch: map[string]string{"x/perpetual/keeper.Keeper.fillMTPData": "query decoration on a copy, never stored", "x/perpetual/keeper.Keeper.HandleOpenEstimation": "estimation on a hypothetical position"}})
 	checkMTPCounter(P, R, subjects)
 	checkMinCustody(P, R)
 	checkErrorToNil(P, R, subjects)
